@@ -19,9 +19,25 @@ def step_pars(pars):
     return {k: v for k, v in pars.items() if v is not None}
 
 
-def np_init(built, vals, scalar_shape="vec1", readonly=False):
+def integerise(vals):
+    """Same values rounded to whole numbers (metering rates to 0/1); infinities are kept."""
+    out = {}
+    for k, d in vals.items():
+        e = {}
+        for a, v in d.items():
+            if isinstance(v, list):
+                e[a] = [x if math.isinf(x) else float(round(x)) for x in v]
+            else:
+                e[a] = v if math.isinf(v) else float(round(v))
+        out[k] = e
+    return out
+
+
+def np_init(built, vals, scalar_shape="vec1", readonly=False, int_dtype=False, shuffle_keys=None):
     """init_conditions for the NumPy engine.  scalar_shape: 'vec1' -> shape (1,),
-    '0d' -> 0-d arrays, 'float' -> python floats."""
+    '0d' -> 0-d arrays, 'float' -> python floats.  int_dtype: whole-number values are passed
+    as integer arrays (the same traffic state written without a decimal point).
+    shuffle_keys: a random.Random that shuffles the key order of every dictionary."""
     lay = var_layout(built.desc)
     linkids = set(built.links)
     ic = {}
@@ -39,11 +55,21 @@ def np_init(built, vals, scalar_shape="vec1", readonly=False):
                         a = np.array(x, dtype=float)
                     else:
                         a = float(x)
+                if int_dtype and isinstance(a, np.ndarray) and np.all(np.isfinite(a)) and np.all(a == np.round(a)):
+                    a = a.astype(np.int64)
                 if readonly and isinstance(a, np.ndarray):
                     a.flags.writeable = False
                 d[name] = a
         if d:
+            if shuffle_keys is not None:
+                ks = list(d)
+                shuffle_keys.shuffle(ks)
+                d = {k_: d[k_] for k_ in ks}
             ic[built.el(eid)] = d
+    if shuffle_keys is not None:
+        ks = list(ic)
+        shuffle_keys.shuffle(ks)
+        ic = {k_: ic[k_] for k_ in ks}
     return ic
 
 
